@@ -898,7 +898,12 @@ def worker_main():
                 # the ordering list belongs to the caller, who goes on using it (an OBDD that kept a reference to it,
                 # instead of its own copy, would change its printed header / ordering with it)
                 lst = list(op[2])
-                pool[op[1]] = OBDD(op[3], lst)
+                if op[3] in lst and op[1] % 2 == 0:
+                    # the expression is a single variable: build the diagram from a NODE (public route OBDD(BDDNode(v, 0, 1), ordering))
+                    # with the name held in a freshly built string object (equal to, but not identical with, the ordering's)
+                    pool[op[1]] = OBDD(BDDNode(''.join(list(op[3])), BDDNode(0), BDDNode(1)), lst)
+                else:
+                    pool[op[1]] = OBDD(op[3], lst)
                 lst.reverse()
                 lst.append('zz_callers_own')
                 del lst[:1]
